@@ -485,6 +485,17 @@ class Collector(object):
       self._ctx[fi.fq] = Ctx(self.an, fi)
     return self._ctx[fi.fq]
 
+  def _present_name(self, fq):
+    """name the function of an exemption has today (it may have been moved
+    or renamed; sa/roles.py identifies it)."""
+    cache = self.__dict__.setdefault('_pn', {})
+    if fq not in cache:
+      try:
+        cache[fq] = self.an.repo.func(fq).fq
+      except Exception:
+        cache[fq] = fq
+    return cache[fq]
+
   def site(self, fi, node, source, kind, verdict, reason, chain):
     self.sites.append(Site(fi, node, source, kind, verdict, reason, list(chain)))
 
@@ -492,7 +503,7 @@ class Collector(object):
     """True (and a site recorded) when (function, source) is an exempted
     construct: the analysis stops there, nothing is propagated."""
     for i, ex in enumerate(self.exemptions):
-      if ex['fn'] == fi.fq and ex['source'] in source:
+      if self._present_name(ex['fn']) == fi.fq and ex['source'] in source:
         self.exempt_hits[i] = self.exempt_hits.get(i, 0) + 1
         self.site(fi, node, source, kind, 'exempt', ex['reason'], chain)
         return True
